@@ -13,6 +13,11 @@ def validate_encoded(string):
         "{} is not a single printable character string".format(repr(string)))
 
 def validate_decoded(string):
+  if not isinstance(string, str):
+    raise gfapy.TypeError(
+      "the class {} is incompatible with the datatype\n"
+      .format(string.__class__.__name__)+
+      "(accepted classes: str)")
   return validate_encoded(string)
 
 def unsafe_encode(obj):
